@@ -11,6 +11,7 @@ git -C /repo worktree add -q "$wt" HEAD || exit 3
 log=$(mktemp /var/tmp/confirm.XXXXXX)
 cd "$wt"
 mkdir -p "$(dirname "$dest")"; cp "$src/demo_test.go" "$dest"
+[ -f "$src/helper_test.go" ] && cp "$src/helper_test.go" "$(dirname "$dest")/helper_test.go"
 echo "## demo at HEAD: $runcmd" >>"$log"
 if bash -c "$runcmd" >>"$log" 2>&1; then base=pass; else base=FAIL; fi
 if ! git apply "$src/patch.diff" 2>>"$log"; then echo "$id PATCH-DOES-NOT-APPLY"; cd /; git -C /repo worktree remove --force "$wt"; exit 3; fi
@@ -18,7 +19,7 @@ echo "## build with patch" >>"$log"
 if go build ./... >>"$log" 2>&1; then build=ok; else build=FAIL; fi
 echo "## demo with patch" >>"$log"
 if bash -c "$runcmd" >>"$log" 2>&1; then mut=pass; else mut=FAIL; fi
-rm -f "$dest"; rmdir "$(dirname "$dest")" 2>/dev/null
+rm -f "$dest"; [ -f "$src/helper_test.go" ] && rm -f "$(dirname "$dest")/helper_test.go"; rmdir "$(dirname "$dest")" 2>/dev/null
 pkgs=$(grep '^+++ b/' "$src/patch.diff" | sed 's#^+++ b/##' | xargs -n1 dirname | sort -u | sed 's#^#./#' | tr '\n' ' ')
 echo "## existing tests of touched packages with patch: go test -count=1 $pkgs" >>"$log"
 if go test -count=1 $pkgs >>"$log" 2>&1; then tests=pass; else tests=FAIL; fi
@@ -26,7 +27,7 @@ cd /; git -C /repo worktree remove --force "$wt"
 echo "$id base=$base build=$build demo_with_patch=$mut touched_pkg_tests=$tests"
 if [ "$base" = pass ] && [ "$build" = ok ] && [ "$mut" = FAIL ] && [ "$tests" = pass ]; then
   d=/verif/seeded/$id; mkdir -p "$d"
-  cp "$src/patch.diff" "$d/patch.diff"; cp "$src/demo_test.go" "$d/demo_test.go"; cp "$src/notes.md" "$d/notes.md" 2>/dev/null
+  cp "$src/patch.diff" "$d/patch.diff"; cp "$src/demo_test.go" "$d/demo_test.go"; cp "$src/notes.md" "$d/notes.md" 2>/dev/null; cp "$src/helper_test.go" "$d/helper_test.go" 2>/dev/null
   tail -c 6000 "$log" > "$d/confirm.log"
   python3 - "$id" "$dest" "$runcmd" "$pkgs" <<'PY'
 import json,sys,re
